@@ -42,6 +42,7 @@ var Quirks = []Quirk{
 	{ID: "C01-union-in-inline-object", Detect: hasUnionInInlineObject, SigAny: []string{"struct{…}"}},
 	{ID: "C01-union-in-body-fields", Detect: hasUnionInBodyFields, SigAny: []string{"== nil (mismatched types", "cannot indirect", "cannot use &_ (value of type *struct{…}"}},
 	{ID: "C01-result-type-response-cookie-with-default", Detect: hasResultTypeCookieWithDefault, SigAny: []string{"server/encode_decode: declared and not used"}},
+	{ID: "C01-map-key-bool-or-float-gen-fails", Detect: hasBoolOrFloatMapKey, SigAny: []string{"gen-error"}},
 	{ID: "C01-bytes-param-with-length-validation", Detect: hasBytesParamWithLength, SigAny: []string{"client/cli: undefined: _"}},
 	{ID: "C01-result-type-required-validated-response-header", Detect: hasResultTypeRequiredValidatedHeader, SigAny: []string{"client/encode_decode: invalid operation: _ != nil (mismatched types"}},
 }
@@ -165,6 +166,38 @@ func hasResultTypeCookieWithDefault(d *m.Design) bool {
 		}
 		return false
 	})
+}
+
+// hasBoolOrFloatMapKey: a map whose key type is Boolean, Float32 or Float64 anywhere in the design.
+func hasBoolOrFloatMapKey(d *m.Design) bool {
+	var walk func(a *m.Attr, depth int) bool
+	walk = func(a *m.Attr, depth int) bool {
+		if a == nil || a.Type == nil || depth > 8 {
+			return false
+		}
+		switch a.Type.Kind {
+		case m.Map:
+			if k := d.Underlying(a.Type.Key); k == m.Boolean || k == m.Float32 || k == m.Float64 {
+				return true
+			}
+			return walk(a.Type.Val, depth+1)
+		case m.Array:
+			return walk(a.Type.Elem, depth+1)
+		case m.Object, m.Union:
+			for _, f := range a.Type.Fields {
+				if walk(f.Attr, depth+1) {
+					return true
+				}
+			}
+		}
+		return false
+	}
+	for _, t := range d.Types {
+		if walk(t.Attr, 0) {
+			return true
+		}
+	}
+	return eachMethod(d, func(s *m.Service, meth *m.Method) bool { return walk(meth.Payload, 0) || walk(meth.Result, 0) })
 }
 
 // hasBytesParamWithLength: a Bytes attribute with a length validation carried
